@@ -251,7 +251,7 @@ def main(argv=None):
         elif a == "--jobs":
             jobs = int(argv.pop(0))
     modname = f"vf.checks.{pid.lower()}"
-    # second opinion (cvc5) on a deterministic sample of the validity queries z3 answers unsat: 1 in 50 (quick) / 1 in 10 (thorough)
+    # second opinion (cvc5) on a systematic sample (every n-th per worker process) of the validity queries z3 answers unsat: 1 in 50 (quick) / 1 in 10 (thorough)
     os.environ.setdefault("VERIF_RECHECK_RATE", "50" if tier == "quick" else "10")
     if rp:
         return replay(modname, rp)
